@@ -259,11 +259,14 @@ def t2t_decode(ans):
     return {'outcome': 'ok', 'foreign': foreign, 'toks': toks, 'txt': txt, 'pos': pos, 'parts': parts, 'unknowns': unknowns, 'diags': diags}
 
 def norm_diags(ds):
-    """(line, col, message up to the first quote): quoted parts go through Python's repr()"""
+    """(line, col, message up to the first quote or line break): quoted parts go through Python's repr(); of a
+    message of several lines (package cleveref) impl.parse_stderr keeps the first line (the complete text on stderr is
+    compared by corr_cref.docs_corr)"""
     import re
-    return [(d[0], d[1], re.split(r'[\'"]', d[2])[0]) for d in ds]
+    return [(d[0], d[1], re.split(r'[\'"\n]', d[2])[0]) for d in ds]
 
 def cleveref_used(case):
+    """(no longer used to exclude anything: package cleveref is part of the model; kept for statistics)"""
     s = case['src'] + ((case.get('opts') or {}).get('defs') or '') + ''.join(v for v in (case.get('files') or {}).values() if isinstance(v, str))
     o = case.get('opts') or {}
     return 'cleveref' in s or 'cleveref' in (o.get('pack') or '')
@@ -272,7 +275,7 @@ def t2t(ctx, cases, results, proj=('outcome', 'toks', 'text', 'diags', 'unknowns
     """token-level correspondence of the whole filter; `proj` = projections compared"""
     if not ctx.model_ok:
         return
-    idx = [i for i in range(len(cases)) if not cleveref_used(cases[i]) and results[i]['outcome'] in ('ok', 'crash', 'fatal')]
+    idx = [i for i in range(len(cases)) if results[i]['outcome'] in ('ok', 'crash', 'fatal')]
     if limit and len(idx) > limit:
         must = [i for i in idx if cases[i].get('kind') in ('long', 'corpus')]
         rest = [i for i in idx if cases[i].get('kind') not in ('long', 'corpus')]
@@ -282,6 +285,8 @@ def t2t(ctx, cases, results, proj=('outcome', 'toks', 'text', 'diags', 'unknowns
         c, r = cases[i], results[i]
         m = t2t_decode(ans['t%d' % i])
         ctx.corr['cases'] += 1
+        if cleveref_used(c):
+            ctx.count('corr_cleveref_documents')
         info = dict(src=c['src'], opts=c.get('opts'), multi=c.get('multi'), files=c.get('files'), thresh=c.get('thresh'))
         if m['outcome'] == 'fuel':
             ctx.count('model_out_of_fuel'); continue
